@@ -41,7 +41,14 @@ if ! (cd "$VERIF/sendsync" && CARGO_TARGET_DIR="$VERIF/target/sendsync" cargo bu
 fi
 
 # ---- stage B: instrumented copy (assembled and built by scripts/build_loom.sh) ----
-"$VERIF/scripts/build_loom.sh" || exit 2
 WS="$VERIF/target/loomws"
+if ! "$VERIF/scripts/build_loom.sh" > "$VERIF/target/build-loom-outer.log" 2>&1; then
+  # distinguish "the tree uses an API loom cannot model" (fall back to stages A + C) from a broken harness
+  if grep -qE "no (function or associated item|method) named|cannot find (type|struct|function)|unresolved import|is not (a )?const|E0599|E0433|E0432|E0015" "$VERIF/target/build-loomh.log" 2>/dev/null && grep -q "engine/src" "$VERIF/target/build-loomh.log"; then
+    export C18_NO_LOOM=1
+  else
+    cat "$VERIF/target/build-loom-outer.log"; exit 2
+  fi
+fi
 python3 "$VERIF/scripts/c18_driver.py" --run "$VERIF/target/loom/release/loomh" "$WS/substitutions.json" "$TIER"
 exit $?
